@@ -4,7 +4,7 @@ from harness import gen_build as G
 
 class C13(Prop):
     id = 'C13'
-    theorems = ['C13.trichotomy', 'C13.complete_file_set']
+    theorems = ['C13.trichotomy', 'C13.complete_file_set', 'C13.wf_needed', 'C13.wf_of_mk']
     proof_modules = ['DznProofs.C13']
     level_rule = ('buildable models (1-3 interfaces, externs, enums, nested/re-opened namespaces, 0-5 ports, '
                   'multi-client) x configurations (all presets, explicit sets, wildcards, both origins, prefixes) '
